@@ -22,14 +22,14 @@ import rules_struct
 
 PROPS = {
     "C02": {
-        "rules": [rules_own.make("C02"), rules_struct.difatcap("C02"), rules_struct.stalechain("C02"), rules_mode.strictlist("C02"), rules_struct.selflink("C02"), rules_wt.run, rules_follow.make("R-HDR", "C02"), rules_follow.make("R-INIT", "C02"), rules_struct.freshid, rules_struct.hdrcount("C02"), rules_struct.hdrv3("C02"), rules_struct.parenttype("C02"), rules_entry.gstore, rules_struct.namelen("C02"), rules_layout.run("C02"), rules_entry.ctorvalues("C02"), rules_wt.reverse("C02"), rules_struct.fmtconst("C02"), rules_follow.make("R-MARK", "C02"), rules_follow.make("R-CTOR", "C02"), rules_struct.wholetable("C02")],
+        "rules": [rules_own.make("C02"), rules_struct.difatcap("C02"), rules_struct.stalechain("C02"), rules_mode.strictlist("C02"), rules_struct.selflink("C02"), rules_wt.run, rules_follow.make("R-HDR", "C02"), rules_follow.make("R-INIT", "C02"), rules_struct.freshid, rules_struct.hdrcount("C02"), rules_struct.hdrv3("C02"), rules_struct.parenttype("C02"), rules_entry.gstore, rules_struct.namelen("C02"), rules_layout.run("C02"), rules_entry.ctorvalues("C02"), rules_wt.reverse("C02"), rules_struct.fmtconst("C02"), rules_follow.make("R-MARK", "C02"), rules_follow.make("R-CTOR", "C02"), rules_struct.wholetable("C02"), rules_struct.difatlink("C02")],
         "explanation": "R-WT: every store site to an in-memory mirror of on-disk state (cached FAT/DIFAT/DIFAT-sector list, MiniFAT and its start sector, directory entry table, sector count; enumerated automatically from MIR: &mut borrows of mirror fields, stores through dir_entry_mut, direct field stores) is paired in the same function with a file write of the same datum "
                        "(same value by provenance, or write_dir_entry/write_to/seek_within_dir_entry+write_le_u32 of the same entry id at the field's offset), either dominating the store or on every Ok path after it; six listed exceptions with reasons. "
                        "R-HDR: header counters (words 40/44/60/64/68/72) are rewritten in the same function that changes the chain they count, on every Ok path. R-INIT: every sector handed out by allocate_sector - reused from the free list or appended - is reset with the caller's initialiser before it is returned (a directory sector recycled without SectorInit::Dir would reopen as garbage entries).",
         "not_decided": "that the bytes reopen to the same state; that the right value is written; crash points inside an operation",
     },
     "C03": {
-        "rules": [rules_struct.linkend("C03"), rules_struct.difatcap("C03"), rules_follow.make("R-MARK"), rules_follow.make("R-HDR", "C03"), rules_follow.make("R-BLANK"), rules_follow.make("R-INIT", "C03"), rules_own.make("C03"), rules_entry.gstore, rules_layout.run("C03"), rules_struct.cutoff, rules_struct.unit, rules_struct.freshid, rules_follow.make("R-FREEOLD", "C03"), rules_struct.hdrcount("C03"), rules_struct.hdrv3("C03"), rules_struct.parenttype("C03"), rules_struct.initkind("C03"), rules_struct.linkkeep("C03"), rules_struct.unlink("C03"), rules_struct.blankown("C03"), rules_struct.killread("C03"), rules_struct.ceil("C03"), rules_entry.slotreset("C03"), rules_guard.make("R-BEGINGUARD"), rules_follow.make("R-FREEREBUILD", "C03"), rules_struct.detach("C03"), rules_struct.namelen("C03"), rules_struct.freebeforeremove("C03"), rules_units.units("C03"), rules_struct.handon("C03"), rules_struct.slotid("C03"), rules_struct.keepcount("C03"), rules_follow.make("R-FREEALL", "C03"), rules_follow.make("R-CUTTAIL", "C03"), rules_struct.stalechain("C03"), rules_struct.allblack("C03"), rules_struct.selflink("C03"), rules_entry.ctorvalues("C03"), rules_struct.fmtconst("C03"), rules_struct.fold("C03"), rules_struct.wholetable("C03"), rules_struct.handlekind("C03"), rules_wt.reverse("C03")],
+        "rules": [rules_struct.linkend("C03"), rules_struct.difatcap("C03"), rules_follow.make("R-MARK"), rules_follow.make("R-HDR", "C03"), rules_follow.make("R-BLANK"), rules_follow.make("R-INIT", "C03"), rules_own.make("C03"), rules_entry.gstore, rules_layout.run("C03"), rules_struct.cutoff, rules_struct.unit, rules_struct.freshid, rules_follow.make("R-FREEOLD", "C03"), rules_struct.hdrcount("C03"), rules_struct.hdrv3("C03"), rules_struct.parenttype("C03"), rules_struct.initkind("C03"), rules_struct.linkkeep("C03"), rules_struct.unlink("C03"), rules_struct.blankown("C03"), rules_struct.killread("C03"), rules_struct.ceil("C03"), rules_entry.slotreset("C03"), rules_guard.make("R-BEGINGUARD"), rules_follow.make("R-FREEREBUILD", "C03"), rules_struct.detach("C03"), rules_struct.namelen("C03"), rules_struct.freebeforeremove("C03"), rules_units.units("C03"), rules_struct.handon("C03"), rules_struct.slotid("C03"), rules_struct.keepcount("C03"), rules_follow.make("R-FREEALL", "C03"), rules_follow.make("R-CUTTAIL", "C03"), rules_struct.stalechain("C03"), rules_struct.allblack("C03"), rules_struct.selflink("C03"), rules_entry.ctorvalues("C03"), rules_struct.fmtconst("C03"), rules_struct.fold("C03"), rules_struct.wholetable("C03"), rules_struct.handlekind("C03"), rules_wt.reverse("C03"), rules_struct.growcount("C03"), rules_struct.difatlink("C03")],
         "explanation": "Format-maintenance obligations visible as code shape: R-MARK (FAT/DIFAT sectors marked as such; allocated cell END_OF_CHAIN before use; freed cells FREE), R-HDR (header counts follow the chains), "
                        "R-BLANK (a removed entry's slot is overwritten with DirEntry::unallocated() on disk), R-GSTORE (no CLSID/timestamps on streams: every store to those fields is dominated by a test excluding ObjType::Stream; only storages are stamped at creation), R-OWN (allocation protocol: who may change FAT cells / free lists / initialise sectors), R-LAYOUT (symbolic walk of DirEntry::read_from/write_to and Header::read_from/write_to in control-flow order: same widths, counts and fields at the same offsets, totals 128 and 512, in-place patch offsets 68/72/76 and 40/44/60/64/68/72/76 equal the derived field offsets).",
         "not_decided": "single ownership of sectors, no orphans, chain length vs stream size, sibling-tree order and colouring: invariants over the contents of FAT and directory across histories",
@@ -64,7 +64,7 @@ PROPS = {
         "not_decided": "that the bytes are zero and that the zero-filled range is exactly [old, new): values",
     },
     "C09": {
-        "rules": [rules_struct.dotdot("C09"), rules_sink.treeid_in("C09", "internal::directory::", "in the directory's tree code every entry whose links are read or written is reached through the walk of the same call: from ROOT, a parent found by lookup, a link compared with NO_STREAM, or a freshly allocated slot - not through an id remembered from an earlier call"), rules_name.oneorder("C09"), rules_name.validname, rules_name.norm, rules_name.orient, rules_struct.unit, rules_struct.unlink("C09"), rules_struct.blankown("C09"), rules_struct.linkkeep("C09"), rules_struct.fold("C09"), rules_det.narrow_in("C09", ["internal::path::"], "the name validation / comparison functions"), rules_struct.namelen("C09"), rules_api.errkind("C09"), rules_name.normbody("C09"), rules_struct.namelimit("C09"), rules_struct.detach("C09"), rules_name.lookupexit("C09"), rules_struct.handon("C09"), rules_wt.reverse("C09"), rules_name.normuse("C09")],
+        "rules": [rules_struct.dotdot("C09"), rules_sink.treeid_in("C09", "internal::directory::", "in the directory's tree code every entry whose links are read or written is reached through the walk of the same call: from ROOT, a parent found by lookup, a link compared with NO_STREAM, or a freshly allocated slot - not through an id remembered from an earlier call"), rules_name.oneorder("C09"), rules_name.validname, rules_name.norm, rules_name.orient, rules_struct.unit, rules_struct.unlink("C09"), rules_struct.blankown("C09"), rules_struct.linkkeep("C09"), rules_struct.fold("C09"), rules_det.narrow_in("C09", ["internal::path::"], "the name validation / comparison functions"), rules_struct.namelen("C09"), rules_api.errkind("C09"), rules_name.normbody("C09"), rules_struct.namelimit("C09"), rules_struct.detach("C09"), rules_name.lookupexit("C09"), rules_struct.handon("C09"), rules_wt.reverse("C09"), rules_name.normuse("C09"), rules_io.refusalkept("C09")],
         "explanation": "R-VALIDNAME (must-pass-through, interprocedural): from every DirEntry::new call with a non-constant name, walking up the call graph along the name argument to the public methods, some function validates the name (ok successor of validate_name on data derived from the same parameter dominates the forwarding call; a completed validation loop counts) and no state mutation precedes that validation on the chain. "
                        "R-NORM: every API method's path parameter reaches only name_chain_from_path (or formatting / forwarding to another API method), and lookups/inserts/removals take names derived from its result. "
                        "R-ORIENT: all compare_names sites agree on orientation (sought name first; Less -> left_sibling, Greater -> right_sibling in both the walk and the link update; validate rejects exactly != Less for (left,node) and (node,right)); no other comparator touches entry names in the directory layer. "
@@ -72,10 +72,10 @@ PROPS = {
         "not_decided": "that compare_names is the CFB order over all Unicode (ASCII fast path vs general path, upper-casing table); that names are stored verbatim and found under every case variant",
     },
     "C10": {
-        "rules": [rules_struct.dotdot("C10"), rules_api.noeffect, rules_name.validname_effects_only, rules_api.deeprefusal, rules_struct.namelimit("C10"), rules_struct.handon("C10"), rules_struct.parenttype("C10"), rules_struct.unit, rules_struct.seekbound("C10"), rules_name.normuse("C10"), rules_struct.handlekind("C10")],
+        "rules": [rules_struct.dotdot("C10"), rules_api.noeffect, rules_name.validname_effects_only, rules_api.deeprefusal, rules_struct.namelimit("C10"), rules_struct.handon("C10"), rules_struct.parenttype("C10"), rules_struct.unit, rules_struct.seekbound("C10"), rules_name.normuse("C10"), rules_struct.handlekind("C10"), rules_name.allvalid("C10"), rules_name.normbody("C10")],
         "explanation": "R-NOEFFECT (must-not-precede): refusal points of every API method (io::Error::new with NotFound/AlreadyExists/InvalidInput, and error exits of effect-free fallible callees that can construct such kinds) are enumerated from MIR; "
                        "no path from the entry to a refusal point may pass a call whose transitive effects include a state/file mutation, a Stream drop, or a store to a Stream field. R-VALIDNAME(noeffect): the refusal of an invalid name (made below the API layer, in the directory code) is not preceded by a mutation anywhere on the creation call chain.",
-        "not_decided": "bit-for-bit equality of state (follows from 'no effect ran' only given that effect-free code is effect-free, which the effect closure establishes for this crate); partial effects of the compound operations create_storage_all/remove_storage_all when a later step is refused by a callee",
+        "not_decided": "bit-for-bit equality of state (follows from 'no effect ran' only given that effect-free code is effect-free, which the effect closure establishes for this crate); partial effects of remove_storage_all when a later step is refused by a callee (create_storage_all: an invalid component is refused up front, R-ALLVALID; a later step failing for another reason - the backend - is C13's matter)",
     },
     "C11": {
         "rules": [rules_sink.sink("mutation"), rules_sink.qual_rule("mutation"), rules_sink.term("mutation"), rules_sink.alloc("mutation"), rules_guard.make("R-INV"), rules_own.make("C11"), rules_follow.make("R-CTOR", "C11"), rules_struct.freelist, rules_entry.slotreset("C11"), rules_struct.chainpos("C11"), rules_lock.reacquire("C11"), rules_struct.nameinv("C11"), rules_struct.lenbound("C11"), rules_struct.nochild("C11"), rules_struct.stalelen("C11"), rules_struct.treetypes("C11"), rules_struct.detach("C11"), rules_units.units("C11"), rules_struct.parenttype("C11"), rules_struct.wholetable("C11"), rules_struct.handlekind("C11")],
@@ -91,27 +91,27 @@ PROPS = {
         "not_decided": "that the bytes returned equal the fault-free run (values); behaviour of std's read_exact/read_to_end themselves",
     },
     "C13": {
-        "rules": [rules_io.posatomic("C13"), rules_struct.predwalk("C13"), rules_lock.reacquire("C13"), rules_io.errdisc(["io_write", "io_flush", "io_seek"], "write"), rules_io.dirty, rules_io.flushreach, rules_follow.make("R-WBENTRY", "C13"), rules_wt.order, rules_follow.make("R-RETRY", "C13"), rules_follow.make("R-SETTER", "C13"), rules_entry.closurestore("C13"), rules_struct.seekend("C13")],
+        "rules": [rules_io.posatomic("C13"), rules_struct.predwalk("C13"), rules_lock.reacquire("C13"), rules_io.errdisc(["io_write", "io_flush", "io_seek"], "write"), rules_io.dirty, rules_io.flushreach, rules_follow.make("R-WBENTRY", "C13"), rules_wt.order, rules_follow.make("R-RETRY", "C13"), rules_follow.make("R-SETTER", "C13"), rules_entry.closurestore("C13"), rules_struct.seekend("C13"), rules_struct.freelist],
         "explanation": "R-ERRDISC(write): no io::Result of a call with backend write/flush/seek effect is dropped (one listed exception: Drop for Stream). "
                        "R-DIRTY: typestate of the dirty marker Stream.flusher - on every path from the arm that took the marker to any return, either the ok successor of the write-back is passed or the marker is stored back; every Ok(n>0) path of Stream::write calls mark_modified. "
                        "R-FLUSHREACH: every Ok path of each link of the flush chain reaches <F as Write>::flush, and Stream::flush writes back first. R-WBENTRY: every Ok path of the flusher reaches write_data_to_stream, and every Ok path of write_data_to_stream / resize_stream rewrites the stream's directory entry (memory is updated before the file write, so only an unconditional rewrite lets a retried flush repair a failed one).",
         "not_decided": "no panic/hang after a failed write on half-updated state (C11's question); that the flushed bytes are the accepted bytes (values)",
     },
     "C15": {
-        "rules": [rules_struct.cutoff, rules_struct.linkend("C15"), rules_guard.make("R-REUSE.consult"), rules_follow.make("R-REUSE"), rules_guard.make("R-CAP"), rules_follow.make("R-FREEOLD", "C15"), rules_own.make("C15"), rules_struct.killread("C15"), rules_mode.rawfield("C15"), rules_struct.linkkeep("C15"), rules_struct.ceil("C15"), rules_struct.dirlen("C15"), rules_guard.make("R-BEGINGUARD"), rules_follow.make("R-FREEREBUILD", "C15"), rules_struct.trimloop("C15"), rules_struct.freebeforeremove("C15"), rules_units.units("C15"), rules_follow.make("R-BLANK"), rules_struct.keepcount("C15"), rules_follow.make("R-FREEALL", "C15"), rules_follow.make("R-CUTTAIL", "C15"), rules_wt.reverse("C15")],
+        "rules": [rules_struct.cutoff, rules_struct.linkend("C15"), rules_guard.make("R-REUSE.consult"), rules_follow.make("R-REUSE"), rules_guard.make("R-CAP"), rules_follow.make("R-FREEOLD", "C15"), rules_own.make("C15"), rules_struct.killread("C15"), rules_mode.rawfield("C15"), rules_struct.linkkeep("C15"), rules_struct.ceil("C15"), rules_struct.dirlen("C15"), rules_guard.make("R-BEGINGUARD"), rules_follow.make("R-FREEREBUILD", "C15"), rules_struct.trimloop("C15"), rules_struct.freebeforeremove("C15"), rules_units.units("C15"), rules_follow.make("R-BLANK"), rules_struct.keepcount("C15"), rules_follow.make("R-FREEALL", "C15"), rules_follow.make("R-CUTTAIL", "C15"), rules_wt.reverse("C15"), rules_struct.growcount("C15")],
         "explanation": "R-REUSE: (a) every append path of allocate_sector / allocate_mini_sector / allocate_dir_entry is dominated by the 'nothing free' outcome of the free-list query (guard atoms); (b) every free feeds the list (free_sector => set_fat(FREE) + free_sectors.push on all Ok paths; likewise mini sectors; free_chain frees each visited sector); (c) validate rebuilds both lists from exactly the FREE cells. "
                        "R-CAP: the branch guarding each extension of the mini-stream chain and of the MiniFAT chain has the chain's physical length (Chain::len / num_sectors) in its condition, not only the logical length that shrinks on release. R-FREEOLD: wherever a stream that already has a chain is moved to a freshly started chain (mini<->regular migration), and before a removed stream's entry goes away, the old chain is freed first on every path.",
         "not_decided": "that file size is constant from the second repetition of any net-zero cycle (values of the free lists over histories); LIFO order; truncation of the file (the code has none)",
     },
     "C16": {
-        "rules": [rules_mode.run, rules_mode.strictlist("C16"), rules_struct.sibflag("C16"), rules_mode.rawfield("C16"), rules_mode.builder("C16"), rules_mode.normapplied("C16"), rules_struct.wholetable("C16"), rules_struct.repairfirst("C16"), rules_struct.hdrcountuse("C16")],
+        "rules": [rules_mode.run, rules_mode.strictlist("C16"), rules_struct.sibflag("C16"), rules_mode.rawfield("C16"), rules_mode.builder("C16"), rules_mode.normapplied("C16"), rules_struct.wholetable("C16"), rules_struct.repairfirst("C16"), rules_struct.hdrcountuse("C16"), rules_struct.storagefields("C16"), rules_mode.strictalways("C16")],
         "explanation": "R-MODE over all is_strict() tests (19 call sites): S - the region of the CFG dominated by the strict edge of each mode test contains no store, no mutating call and no Ok return, only refusals of kind InvalidData; "
                        "P/N - the region dominated by the permissive edge is either a listed normaliser that only pops/truncates its listed vector (DIFAT zero-stripping, FAT tail stripping, MiniFAT truncation) or a canonicalising assignment nested inside a documented deviation test; no refusal is made only in permissive mode. "
                        "Deviation inventory: each of the 18 documented deviations is located (regexes over guard atoms) as a refusal with is_strict() on its path (or, for the zero-padded FAT, an unconditional refusal pre-empted by the permissive normaliser).",
         "not_decided": "that the permissive view of a damaged file equals the undamaged file's content (values); deviations combined with foreign layouts",
     },
     "C17": {
-        "rules": [rules_det.tsident("C17"), rules_follow.make("R-SETTER", "C17"), rules_entry.gstore, rules_det.narrow, rules_layout.run("C17"), rules_entry.moveall, rules_entry.getter("C17"), rules_entry.closurestore("C17"), rules_api.errkind("C17"), rules_det.epochcentre("C17"), rules_entry.ctorvalues("C17"), rules_entry.setterpure("C17")],
+        "rules": [rules_det.tsident("C17"), rules_follow.make("R-SETTER", "C17"), rules_entry.gstore, rules_det.narrow, rules_layout.run("C17"), rules_entry.moveall, rules_entry.getter("C17"), rules_entry.closurestore("C17"), rules_api.errkind("C17"), rules_det.epochcentre("C17"), rules_entry.ctorvalues("C17"), rules_entry.setterpure("C17"), rules_entry.setterkind("C17"), rules_io.refusalkept("C17"), rules_det.saturate("C17")],
         "explanation": "R-SETTER: every metadata setter reaches with_dir_entry_mut on its Ok path, which forwards the same id down to Directory::with_dir_entry_mut, which writes the same slot back (write_dir_entry(same id) -> seek(128*id) + dir_entries[id].write_to). "
                        "R-GSTORE: streams never receive a CLSID or timestamps (every store to those fields is dominated by a test excluding ObjType::Stream). "
                        "R-NARROW: the FILETIME<->SystemTime conversion is total and saturating (no narrowing integer cast unless interval evaluation shows it fits, no unchecked SystemTime/Duration arithmetic, no unwrap of a fallible time operation). R-LAYOUT: the directory-entry serialiser and parser agree field for field (clsid, state bits, both timestamps at the same offsets and widths). R-ERRKIND rows: CLSID on a stream is InvalidInput, setters on a missing path are NotFound.",
@@ -325,6 +325,21 @@ _ADDED11 = {
     "C18": " R-NOERRAFTER also runs for this property and treats a fallible call whose Result is returned as the function's own result as an error exit (a Write::write that advances the position by the requested length and then returns the inner write's short count).",
 }
 for _pid, _txt in _ADDED11.items():
+    PROPS[_pid]["explanation"] = PROPS[_pid]["explanation"] + _txt
+
+_ADDED12 = {
+    "C02": " R-DIFATLINK: on the Difat arm of SectorInit::initialize END_OF_CHAIN reaches the sector through one write outside every loop (as part of a repeated 512-byte pattern it lands in every 128th slot of a 4096-byte sector and the image stops reopening). R-FRESHID also requires that one fat.len() read feeds at most one init_sector call (a length hoisted above the first push names two new sectors).",
+    "C03": " R-GROWCOUNT: in Chain / MiniChain no value of self.sector_ids.len() is used after the list was changed on the way from where the length was taken, except to roll the list back (a count taken before the first push makes a chain grown from empty one sector longer than its length covers). R-DIFATLINK (see C02).",
+    "C08": " R-KEEPCOUNT reads the cut index also from `self.sector_ids[..N].last()` (index N - 1) and `[..=N].last()` (index N).",
+    "C09": " R-REFUSALKEPT: in functions that return io::Result no io::Result of an effect-free crate function (lookups, the path normaliser, the name validation, walk_storage) is dropped, unwrapped, discarded through ok / unwrap_or* / is_ok, or matched / mapped with an Err arm that goes on to an Ok result - the refusal of an escaping or missing path reaches the caller. R-NORMBODY also requires that a component whose to_str() is None ends the normaliser with a refusal (skipped, the path names its parent).",
+    "C10": " R-ALLVALID: create_storage_all validates every component of the path (a whole-collection iteration of the name chain whose refusal is propagated; an index range only in the plain form 0..names.len()) before the first call that can change the file. R-NORMBODY also runs for this property (a skipped non-UTF-8 component makes a call that must be refused act on the parent).",
+    "C12": " R-ERRDISC also reports a closure that returns the io::Result of a backend call and is handed to flat_map (or map + flatten): Result's IntoIterator yields nothing for Err, so a read failure while loading the FAT is dropped and every later entry shifts down.",
+    "C13": " R-FREELIST also runs for this property, with an error-exit clause: a `?` between shortening the FAT / MiniFAT and filtering the free list leaves a stale id behind for the next call (not applied to functions only constructors call: the object is never handed out). R-ERRDISC also judges the residual of a `?` inside an inlined helper whose result the caller only probes with is_err().",
+    "C15": " R-GROWCOUNT (see C03): a surplus sector no length covers is never released by a later shrink to the covered count.",
+    "C16": " R-STORAGEFIELDS: on the paths of DirEntry::read_from that a Storage entry takes in permissive mode no comparison of a value computed from the start-sector / size words separates acceptance from refusal (garbage there is a documented tolerated deviation). R-STRICTALWAYS: the comparison behind each header-count deviation (rows marked `always` in rules/mode.json) lies on every strict-mode path from the entry of open_internal to its Ok return.",
+    "C17": " R-SETTERKIND: inside the public metadata setters, their closures and the helpers only they call, every object-type test is against ObjType::Stream (storages and the root are never told apart). R-SATURATE: in the to-timestamp conversions a checked addition / multiplication falls back to u64::MAX and a checked subtraction to 0, nothing else. R-REFUSALKEPT (see C09): a setter on a missing path answers NotFound.",
+}
+for _pid, _txt in _ADDED12.items():
     PROPS[_pid]["explanation"] = PROPS[_pid]["explanation"] + _txt
 
 
